@@ -15,6 +15,19 @@ class NullLogger:
     def setLevel(self, *a):
         pass
 
+    # whether a level is enabled is ambient configuration (logging.disable, the logger's own level): harnesses may set
+    # `enabled` to a symbolic bool; the framework's behaviour must not depend on it
+    enabled = True
+
+    def isEnabledFor(self, level):
+        return NullLogger.enabled
+
+    def getEffectiveLevel(self):
+        return 20 if NullLogger.enabled else 30
+
+    level = 20
+    disabled = False
+
 
 NULL_LOGGER = NullLogger()
 
@@ -398,9 +411,32 @@ class Frame:
         self.cols[name] = col
 
     def __getitem__(self, name):
+        if isinstance(name, list):              # column selection: a NEW frame with exactly those columns, in that order
+            out = Frame({})
+            for c in name:
+                if c not in self.cols:
+                    raise KeyError(c)
+            out.n = self.n
+            for c in name:
+                v = self.cols[c]
+                out.cols[c] = v.copy() if isinstance(v, np.ndarray) else list(v)
+            return out
         if name not in self.cols:
             raise KeyError(name)
         return self.cols[name]
+
+    @property
+    def columns(self):
+        return list(self.cols)
+
+    def assign(self, **kwargs):                 # a NEW frame with the columns added / replaced; the receiver is unchanged
+        out = self[list(self.cols)]
+        for k, v in kwargs.items():
+            out[k] = v
+        return out
+
+    def copy(self, deep=True):
+        return self[list(self.cols)]
 
     def __contains__(self, name):
         return name in self.cols
